@@ -18,6 +18,18 @@ CHECKS = {
         "Bounded model (2 entities, 2 values, 1 attribute, <= 3 operations); expression truth restricted to the Expr grammar; "
         "HA core trusted; recordings sampled (random histories), not exhaustive.",
         "DESIGN.md section 5 C04, Appendix F"),
+    "C05": (
+        "TLC model checking of spec/Hold.tla (hold automaton vs. declarative statement over the evaluation history, all "
+        "configurations) + trace validation of timed recordings of the real integration against spec/HoldTrace.tla "
+        "(shared operators in HoldCore.tla, deviations classified by named deviation flags)",
+        "The check_now/hold/hold_false automaton is an explicit TLA+ specification; TLC shows on all configurations and "
+        "timed histories up to the bound that it implies the statement written declaratively over the history of "
+        "evaluations, and that non-evaluating changes are stuttering steps.  The real decorators and task.wait_until (both "
+        "subsystems) run timed scenarios on a virtual clock; TLC folds the same operators over each recorded history and "
+        "accepts or rejects the observed run times and arguments.",
+        "Grid of even event times with S,H in {None,0,3} (no ties); one watched entity with expression a == '1'; "
+        "recordings sampled; virtual clock replaces time.monotonic/loop.time.",
+        "DESIGN.md section 5 C05, Appendices B and K"),
 }
 
 NOT_YET = {
